@@ -26,6 +26,7 @@ Specs: spec/kernels/FourierPoly.tla (+ MCFourierPoly.tla), requirement side on s
 from __future__ import annotations
 
 import json
+import os
 import re
 import sys
 import threading
@@ -536,7 +537,7 @@ def alg_cases(x: dict, pyfunc: bool):
         out.append(dict(base, fn="_fpoly_poisson", q=Q, dq=dq, expect=x["poisson"], oot=x["poissonoot"]))
     # scale of the rounding error for the tolerance runs: sum of |term| (numerator units) times the largest derivative factor
     for i, pt in enumerate(x["pts"]):
-        S = sum(abs(complex(t[1], t[2])) * np.prod([abs(float(m)) ** n for m, n in zip(pt["m"], t[0][:3])]) * pt["b"] ** (x["evald"] - deg_of(t))
+        S = sum(abs(complex(t[1], t[2])) * np.prod([max(abs(float(m)), 1.0) ** n for m, n in zip(pt["m"], t[0][:3])]) * pt["b"] ** (x["evald"] - deg_of(t))
                 * max(1, max(t[0][:3])) ** 2 * max(1, max(abs(k) for k in t[0][3:])) ** 2 * 16 for t in P) + 1.0
         exact = all(t == 0 for t in pt["t"])
         tol = 0.0 if exact else 1e-10 * S
@@ -634,6 +635,8 @@ def _bg(fn):
 
 
 def main(tier=None, replay=None):
+    if replay:
+        replay = os.path.abspath(replay)          # Check() moves the process to the scratch directory
     ck = Check("X01", "model_checking", tier)
     if replay:
         return replay_one(json.load(open(replay))["data"], replay)
